@@ -340,6 +340,15 @@ class Summaries:
             ctx.write(0, mk("vec_push", a[0], a[1]))
             return UNIT
         if tp.endswith("Vec::<T, A>::pop"):
+            if a[0].op == "seq_map_t":
+                # a vector built by `iter.map(f).collect()` over a concretely known sequence: materialise its elements
+                item, body, src = a[0].args
+                seq = self.concrete_seq(I, src)
+                if seq is not None and len(seq) <= 16:
+                    v = mk("empty", "Vec")
+                    for x in seq:
+                        v = mk("vec_push", v, Tm.subst(body, {item: x}))
+                    a = [v] + list(a[1:])
             if a[0].op == "vec_push":
                 ctx.write(0, a[0].args[0])
                 return variant("Some", a[0].args[1])
